@@ -592,6 +592,7 @@ int main(int argc, char ** argv)
       std::vector<double> tplan;
       bool reserve_event = false;
       bool keep_pars     = false;
+      std::vector<double> bbplan_first;
       // optional trailers ("R": event object with room for 64 particles): "T k v1..vk" transition-outcome deviates; "N c1..c7" nuclear matrix elements of the
       // rhc-eta mode, set on both sides (Decay0: COMMON /eta_nme/); "K": the caller-owned parameter block of the previous "K" job is
       // initialised again without being reset (legacy interface: genbbsub(..., ISTART_INIT, ..., bbpars) on a block in use)
@@ -613,6 +614,15 @@ int main(int argc, char ** argv)
             reserve_event = true;
           } else if (tag == "K") {
             keep_pars = true;
+          } else if (tag == "B") {
+            // deviates of the first draws made directly inside decay0_bb (first event only): trial energy, ordinate, ...
+            size_t k;
+            ls >> k;
+            for (size_t i = 0; i < k; i++) {
+              std::string s;
+              ls >> s;
+              bbplan_first.push_back(parse_plan_val(s));
+            }
           }
         }
       }
@@ -688,6 +698,7 @@ int main(int argc, char ** argv)
         if (iev == 0) {
           src.pin_pos = pin_pos;
           src.pin_val = pin_val;
+          src.bbplan  = bbplan_first;
         }
         Result r;
         bxdecay0::event ev;
